@@ -192,8 +192,11 @@ def assemble_track(msgs, how, rng):
     return t
 
 
-def midifile_of(fmt, division, tracks, charset='latin1', rng=None):
-    how = rng.choice(ASSEMBLIES) if rng is not None else 'ctor'
+def midifile_of(fmt, division, tracks, charset='latin1', rng=None, how=None):
+    import random as _random
+    if how is not None and rng is None:
+        rng = _random.Random(how)
+    how = how or (rng.choice(ASSEMBLIES) if rng is not None else 'ctor')
     built = []
     for evs in tracks:
         msgs = [msg_of_event(e, 'latin1' if charset not in ('latin1',) and any(
